@@ -32,6 +32,8 @@ type Scenario struct {
 	FixedIPv4 bool `json:"fixedIPv4,omitempty"`
 	// SlowAppMs[i]: the application of hub i needs this long for a pairing-detail notification
 	SlowAppMs []int `json:"slowAppMs,omitempty"`
+	// SlowLog: log lines for which the application's logger is slow (see slowlog.go)
+	SlowLog []LogRule `json:"slowLog,omitempty"`
 }
 
 // OpRec records when an op ran.
@@ -51,6 +53,7 @@ type Run struct {
 	Herr      string
 	Overshoot time.Duration // worst scheduling delay observed by the watchdog
 	fixedIPv4 bool
+	unlog     func() // removes the scenario's slow-logger rules
 	regMu     sync.Mutex
 	reg       map[[2]int]bool // what the user of x has registered (persisted pairing, restored after a restart)
 }
@@ -77,7 +80,7 @@ func watchdog(stop chan struct{}, worst *time.Duration, mu *sync.Mutex) {
 
 // Execute builds the fabric and runs the ops. The caller closes r.F.
 func Execute(sc Scenario) *Run {
-	r := &Run{F: NewFabric(), fixedIPv4: sc.FixedIPv4, reg: map[[2]int]bool{}}
+	r := &Run{F: NewFabric(), fixedIPv4: sc.FixedIPv4, reg: map[[2]int]bool{}, unlog: func() {}}
 	f := r.F
 	for i := 0; i < sc.N; i++ {
 		if _, err := f.AddNode(fmt.Sprintf("N%d", i), nil); err != nil {
@@ -104,6 +107,15 @@ func Execute(sc Scenario) *Run {
 		r.Herr = err.Error()
 		return r
 	}
+	var rules []logRule
+	for _, lr := range sc.SlowLog {
+		rule := logRule{match: lr.Match, d: time.Duration(lr.Ms) * time.Millisecond}
+		if lr.Ski >= 0 && lr.Ski < len(f.Nodes) {
+			rule.ski = f.Nodes[lr.Ski].SKI
+		}
+		rules = append(rules, rule)
+	}
+	r.unlog = addLogRules(rules)
 	for i, n := range f.Nodes {
 		if i < len(sc.AutoAccept) && sc.AutoAccept[i] {
 			n.Hub.SetAutoAccept(true)
@@ -356,4 +368,10 @@ func (f *Fabric) Describe(max int) string {
 		fmt.Fprintf(&b, "\n  proxy %d->%d accepts=%v live=%d", k[0], k[1], p.Accepts(), p.Live())
 	}
 	return b.String()
+}
+
+// Close ends the scenario: slow-logger rules are removed, hubs shut down, proxies closed.
+func (r *Run) Close() {
+	r.unlog()
+	r.F.Close()
 }
